@@ -123,17 +123,16 @@ theorem depthOK_member (t : Nat) (kvs : List (Bytes × JV)) (kv : Bytes × JV) (
 theorem vok_member : ∀ (kvs : List (Bytes × JV)) (kv : Bytes × JV), kv ∈ kvs → VOK (.obj kvs) →
     Spec.Utf8.validUtf8 kv.1 = true ∧ VOK kv.2 := by
   intro kvs kv hx hv
-  have h1 : shapeWm kvs = true := by simpa [shapeW] using hv.1
-  have h2 : Spec.WF.noFloatm kvs = true := by simpa [Spec.WF.noFloat] using hv.2
+  have h1 : shapeWm kvs = true := by simpa [VOK, shapeW] using hv
   clear hv
   induction kvs with
   | nil => simp at hx
   | cons y ys ih =>
     obtain ⟨k, y⟩ := y
-    simp only [shapeWm, Spec.WF.noFloatm, Bool.and_eq_true] at h1 h2
+    simp only [shapeWm, Bool.and_eq_true] at h1
     rcases List.mem_cons.mp hx with rfl | hx
-    · exact ⟨h1.1.1, h1.1.2, h2.1⟩
-    · exact ih hx h1.2 h2.2
+    · exact ⟨h1.1.1, h1.1.2⟩
+    · exact ih hx h1.2
 
 end
 
